@@ -261,3 +261,7 @@ impl ListStyle {
         "narrow" => Self::Narrow,
     }
 }
+
+#[cfg(kani)]
+#[path = "/verif/kani/formatter.rs"]
+mod verif_kani;
